@@ -5,20 +5,10 @@ import json, os, subprocess
 
 HERE = os.path.dirname(os.path.dirname(os.path.abspath(__file__)))
 
-# id -> (technique, level text, level note, design ref)
-CLAIMED = {
- "C01": ("runtime monitor: wasmparser Validator as invariant at the parse/encode boundary over generated + fixture modules",
-         "Exploration: every generated / fixture module is parsed and re-encoded by the real library and the output is validated; held = no counter-example among the executions listed in evidence.",
-         "Trusts wasmparser 0.235's validator and the harness generator's validity pre-check; bounded module sizes; extended-const excluded.", "§4 C01"),
- "C02": ("runtime monitor: reference oracle (identity function) — wasmprinter text, decoded name maps and ordered custom-section list of input vs output",
-         "Exploration: same executions as C01 with the content oracle; mismatches classified by an independent wasmparser decoder.",
-         "Trusts wasmprinter/wasmparser 0.235; name-section layout and section framing are not compared.", "§4 C02"),
-}
-NA_REASONS = { "C03": ("runtime crash monitor: catch_unwind + child-process exit status over mutated / truncated / spliced / unmodelled-feature binaries",
-         "Exploration: hostile near-valid inputs (mutations of generated modules and components, fixtures, assert_malformed payloads, hand-made unmodelled-feature binaries, nesting to depth 4096) are parsed by both entry points with both flag values; any unwind or abnormal child exit is a violation.",
-         "Says nothing about inputs the mutators do not reach; time/memory limits are inconclusive, never a violation.", "§4 C03"),
-}
-NA_REASONS = {}
+# tools/claims.json: id -> {technique, text, note, ref}; everything else is not_applicable
+CLAIMS = json.load(open(os.path.join(HERE, "tools", "claims.json")))
+CLAIMED = {k: (v["technique"], v["text"], v["note"], v["ref"]) for k, v in CLAIMS["claimed"].items()}
+NA_REASONS = CLAIMS.get("not_applicable", {})
 PENDING_REASON = "monitor not built yet in this revision (design in DESIGN.md §4); will be claimed once its check runs silent and fires on seeded breaks"
 
 props = [json.loads(l) for l in open(os.path.join(HERE, "properties.jsonl"))]
